@@ -623,6 +623,7 @@ func corruptBody(body, mode string, pos int) string {
 // the end.
 func Execute(t *testing.T, plan *Plan, oracle func(x *Exec, so *StepObs), final func(x *Exec), keepEvents bool) (res *RunResult, ex *Exec) {
 	res = &RunResult{Check: plan.Check, Seed: plan.Seed, Index: plan.Index, Variant: plan.Variant}
+	hung := false
 	t0 := time.Now()
 	defer func() {
 		res.WallMs = float64(time.Since(t0).Microseconds()) / 1000
@@ -630,7 +631,7 @@ func Execute(t *testing.T, plan *Plan, oracle func(x *Exec, so *StepObs), final 
 	defer func() {
 		if r := recover(); r != nil {
 			msg := fmt.Sprint(r)
-			if strings.Contains(msg, "deadlock") && res.Infra != "" {
+			if strings.Contains(msg, "deadlock") && (res.Infra != "" || hung) {
 				return // blocked goroutines left behind by a hang we already reported
 			}
 			if res.Infra == "" {
@@ -689,6 +690,14 @@ func Execute(t *testing.T, plan *Plan, oracle func(x *Exec, so *StepObs), final 
 				}
 				so.Results = x.runStepOps(si, st.Group, st.Faults)
 			}
+			if x.Sim.Hang != "" && plan.Check == "C20" {
+				// C20 owns the "no hang" clause
+				x.Violate(Violation{"C20", "no-hang", "history", x.c20Damage(si), "the operation did not finish: " + x.Sim.Hang, si})
+				hung = true
+				x.Sim.Event("HANG %s", x.Sim.Hang)
+				x.Steps = append(x.Steps, so)
+				break
+			}
 			if x.Sim.Hang != "" {
 				res.Infra = "hang: " + x.Sim.Hang
 				x.Sim.Event("HANG %s", x.Sim.Hang)
@@ -706,7 +715,7 @@ func Execute(t *testing.T, plan *Plan, oracle func(x *Exec, so *StepObs), final 
 				break
 			}
 		}
-		if final != nil && res.Infra == "" {
+		if final != nil && res.Infra == "" && !hung {
 			final(x)
 		}
 		res.SimSeconds = time.Since(start).Seconds()
